@@ -52,6 +52,10 @@ def gen_case(rng, kind):
     io = gens.imf_opts(rng)
     eo = gens.env_opts(rng, 'splrep' if rng.random() < .7 else None)
     xo = gens.ext_opts(rng)
+    if rng.random() < .15:
+        # integer-typed / single-precision recordings are finite signals too; the specification works on the same values in float64
+        dt = gens.pick(rng, [np.int16, np.int32, np.int64, np.float32])
+        x = (np.round(x / np.abs(x).max() * 200).astype(dt) if np.dtype(dt).kind == 'i' else x.astype(dt))
     nps = sorted(set([1] + [int(v) for v in rng.integers(2, 9, 2)]))
     c = {'kind': kind, 'family': fam, 'x': x, 'imf_opts': io, 'envelope_opts': eo, 'extrema_opts': xo, 'nprocesses': nps,
          'delay_seed': int(rng.integers(2 ** 31))}
@@ -64,7 +68,9 @@ def gen_case(rng, kind):
                                           [float(v) for v in np.sort(rng.uniform(.01, .45, 5))[::-1]]])
         c['mask_amp_mode'] = gens.pick(rng, ['abs', 'ratio_sig', 'ratio_imf'])
         c['max_imfs'] = int(rng.integers(1, 6))
-        c['mask_amp'] = float(gens.pick(rng, [1, .5, 2])) if rng.random() < .6 else rng.uniform(.2, 2, 5)
+        c['mask_amp'] = float(gens.pick(rng, [1, .5, 2, 0.0])) if rng.random() < .6 else rng.uniform(.2, 2, 5)
+        if not np.isscalar(c['mask_amp']) and rng.random() < .4:
+            c['mask_amp'][int(rng.integers(0, 5))] = 0.0     # a layer without a mask in the middle of the ladder
         c['mask_step_factor'] = float(gens.pick(rng, [2, 3, 1.5]))
         c['nphases'] = int(rng.integers(1, 5))
         c['nprocesses'] = nps[:2]
@@ -88,7 +94,9 @@ def schedule_obs(ctx, tr, ndigest_to_job):
 
 def check_gnim(ctx, tr, case):
     from emd import sift as S
-    x, io, eo, xo = case['x'], case['imf_opts'], case['envelope_opts'], case['extrema_opts']
+    xin, io, eo, xo = case['x'], case['imf_opts'], case['envelope_opts'], case['extrema_opts']
+    x = np.asarray(xin, dtype=float)
+    ctx.count('input_dtype:%s' % xin.dtype)
     z, amp, P = case['z'], case['amp'], case['nphases']
     ctx.case(digest(x, z, amp, P, io, eo, xo), amp != 0)
     ref, rflag = spec_masked_extraction(S, x, z, amp, P, io, eo, xo)
@@ -100,7 +108,7 @@ def check_gnim(ctx, tr, case):
     for npr in case['nprocesses']:
         tr.begin('gnim')
         tr.delay_rng = np.random.default_rng(case['delay_seed'] + npr)
-        out, flag = S.get_next_imf_mask(x.copy(), z, amp, nphases=P, nprocesses=npr, imf_opts=io, envelope_opts=eo, extrema_opts=xo)
+        out, flag = S.get_next_imf_mask(xin.copy(), z, amp, nphases=P, nprocesses=npr, imf_opts=io, envelope_opts=eo, extrema_opts=xo)
         outs[npr] = out
         ctx.count('masked_extractions')
         norm, nworkers = schedule_obs(ctx, tr, d2j)
@@ -142,7 +150,9 @@ def check_gnim(ctx, tr, case):
 def check_mask_sift(ctx, tr, case):
     from emd import sift as S
     from emd import spectra
-    x, io, eo, xo = case['x'], case['imf_opts'], case['envelope_opts'], case['extrema_opts']
+    xin, io, eo, xo = case['x'], case['imf_opts'], case['envelope_opts'], case['extrema_opts']
+    x = np.asarray(xin, dtype=float)
+    ctx.count('input_dtype:%s' % xin.dtype)
     mf, mode, P = case['mask_freqs'], case['mask_amp_mode'], case['nphases']
     step, cap, ma = case['mask_step_factor'], case['max_imfs'], case['mask_amp']
     ctx.case(digest(x, mf, mode, P, step, cap, ma, io, eo, xo), True)
@@ -151,7 +161,7 @@ def check_mask_sift(ctx, tr, case):
     for npr in case['nprocesses']:
         tr.begin('mask_sift')
         tr.delay_rng = np.random.default_rng(case['delay_seed'] + npr)
-        outs[npr] = S.mask_sift(x.copy(), mask_amp=ma, mask_amp_mode=mode, mask_freqs=mf, mask_step_factor=step,
+        outs[npr] = S.mask_sift(xin.copy(), mask_amp=ma, mask_amp_mode=mode, mask_freqs=mf, mask_step_factor=step,
                                 ret_mask_freq=True, max_imfs=cap, nphases=P, nprocesses=npr,
                                 imf_opts=io, envelope_opts=eo, extrema_opts=xo)
         ctx.count('mask_sifts')
@@ -190,10 +200,12 @@ def check_mask_sift(ctx, tr, case):
         if mode == 'abs':
             sd = 1
         elif mode == 'ratio_sig' or k == 0:
-            sd = x.std()
+            sd = xin.std()   # (std in the recording's own precision: for float32 input that is what "std of the signal" is)
         else:
             sd = imf[:, k - 1].std()
         a = (ma if np.isscalar(ma) else ma[k]) * sd
+        if a == 0 and k > 0:
+            ctx.count('zero_amplitude_layers_after_first')
         ref, _ = spec_masked_extraction(S, resid, freqs[k], a, P, io, eo, xo)
         err = np.abs(imf[:, k] - ref).max() / scale
         ctx.count('mask_sift_columns_checked')
